@@ -58,4 +58,90 @@ theorem flipBit_udp_shape (a b c d l0 l1 e0 e1 : UInt8) (p : Bytes) (i : Nat) (h
     | exact ⟨_, _, _, _, _, _, _, rfl, length_flipBit _ _⟩
     | omega
 
+/-! ### IPv4 and TCP: what the decoder delimits for an emitted header / segment -/
+
+theorem ip4Contents_shape (b0 tos l0 l1 : UInt8) (rest : Bytes) (L ihl : Nat) (hL : be16 l0 l1 = L) (hi : b0.toNat % 16 = ihl)
+    (hlen : (b0 :: tos :: l0 :: l1 :: rest).length = L) (h20 : 20 ≤ L) (h5 : 5 ≤ ihl) (hle : ihl * 4 ≤ L)
+    (hopt : ip4OptsOk 64 (((b0 :: tos :: l0 :: l1 :: rest).take (ihl * 4)).drop 20) = true) :
+    ip4Contents (b0 :: tos :: l0 :: l1 :: rest) = some ((b0 :: tos :: l0 :: l1 :: rest).take (ihl * 4)) := by
+  have e : (if L = 0 then (b0 :: tos :: l0 :: l1 :: rest).length % 65536 else L) = L := by split <;> omega
+  have n1 : ¬ L < 20 := by omega
+  have n2 : ¬ ihl < 5 := by omega
+  have n3 : ¬ ihl * 4 > L := by omega
+  have n4 : ¬ L > L := by omega
+  simp only [ip4Contents, hL, hi]
+  rw [e]
+  simp only [hlen, n1, n2, n3, n4, if_false, hopt, and_self, if_true]
+
+theorem put16At_shape10 (x0 x1 x2 x3 x4 x5 x6 x7 x8 x9 x10 x11 : UInt8) (rest : Bytes) (v : Nat) :
+    put16At (x0 :: x1 :: x2 :: x3 :: x4 :: x5 :: x6 :: x7 :: x8 :: x9 :: x10 :: x11 :: rest) 10 v =
+      x0 :: x1 :: x2 :: x3 :: x4 :: x5 :: x6 :: x7 :: x8 :: x9 :: u8 (v / 256) :: u8 v :: rest := by
+  simp [put16At, putBe16]
+
+theorem emitIp4_shape (f : Ip4F) (n : Nat) :
+    ∃ e0 e1, emitAt 0 10 postId (ip4Hdr f n) =
+      u8 (64 + (5 + f.opts.length / 4)) :: u8 f.tos :: u8 ((20 + f.opts.length + n) % 65536 / 256) :: u8 ((20 + f.opts.length + n) % 65536) ::
+      (u8 (f.id / 256) :: u8 f.id :: u8 (f.ff / 256) :: u8 f.ff :: u8 f.ttl :: u8 f.proto :: e0 :: e1 :: (f.src ++ f.dst ++ f.opts)) := by
+  unfold emitAt
+  simp only [ip4Hdr, putBe16, List.cons_append, List.nil_append, put16At_shape10, List.append_assoc]
+  exact ⟨_, _, rfl⟩
+
+/-- the IPv4 decoder hands exactly the emitted header to VerifyChecksum -/
+theorem ip4Contents_emitted (f : Ip4F) (payload : Bytes) (hs : f.src.length = 4) (hd : f.dst.length = 4)
+    (ho4 : f.opts.length % 4 = 0) (ho : f.opts.length ≤ 40) (hok : ip4OptsOk 64 f.opts = true)
+    (htot : 20 + f.opts.length + payload.length < 65536) :
+    ip4Contents (emitIp4 f payload) = some (emitAt 0 10 postId (ip4Hdr f payload.length)) := by
+  have hHlen : (emitAt 0 10 postId (ip4Hdr f payload.length)).length = 20 + f.opts.length := by
+    rw [emitAt_length postId (by rw [ip4Hdr_length]; omega), ip4Hdr_length]; omega
+  obtain ⟨e0, e1, hsH⟩ := emitIp4_shape f payload.length
+  unfold emitIp4
+  generalize emitAt 0 10 postId (ip4Hdr f payload.length) = H at *
+  have htake : (H ++ payload).take (20 + f.opts.length) = H := by
+    rw [List.take_append, hHlen, Nat.sub_self, List.take_zero, List.append_nil, ← hHlen, List.take_length]
+  have hdrop : H.drop 20 = f.opts := by
+    obtain ⟨a, b, c, d, hsrc⟩ := len4 f.src hs
+    obtain ⟨a', b', c', d', hdst⟩ := len4 f.dst hd
+    rw [hsH, hsrc, hdst]; simp
+  have hdl : (H ++ payload).length = 20 + f.opts.length + payload.length := by rw [List.length_append, hHlen]
+  have e4 : (5 + f.opts.length / 4) * 4 = 20 + f.opts.length := by omega
+  have key := ip4Contents_shape (u8 (64 + (5 + f.opts.length / 4))) (u8 f.tos) (u8 ((20 + f.opts.length + payload.length) % 65536 / 256))
+    (u8 ((20 + f.opts.length + payload.length) % 65536))
+    ((u8 (f.id / 256) :: u8 f.id :: u8 (f.ff / 256) :: u8 f.ff :: u8 f.ttl :: u8 f.proto :: e0 :: e1 :: (f.src ++ f.dst ++ f.opts)) ++ payload)
+    (20 + f.opts.length + payload.length) (5 + f.opts.length / 4)
+    (by simp only [be16, u8_toNat]; omega) (by rw [u8_toNat]; omega)
+    (by rw [← List.cons_append, ← List.cons_append, ← List.cons_append, ← List.cons_append, ← hsH]; exact hdl)
+    (by omega) (by omega) (by omega)
+    (by rw [← List.cons_append, ← List.cons_append, ← List.cons_append, ← List.cons_append, ← hsH, e4, htake, hdrop]; exact hok)
+  rw [← List.cons_append, ← List.cons_append, ← List.cons_append, ← List.cons_append, ← hsH, e4, htake] at key
+  exact key
+
+theorem put16At_shape16 (x0 x1 x2 x3 x4 x5 x6 x7 x8 x9 x10 x11 x12 x13 x14 x15 x16 x17 : UInt8) (rest : Bytes) (v : Nat) :
+    put16At (x0 :: x1 :: x2 :: x3 :: x4 :: x5 :: x6 :: x7 :: x8 :: x9 :: x10 :: x11 :: x12 :: x13 :: x14 :: x15 :: x16 :: x17 :: rest) 16 v =
+      x0 :: x1 :: x2 :: x3 :: x4 :: x5 :: x6 :: x7 :: x8 :: x9 :: x10 :: x11 :: x12 :: x13 :: x14 :: x15 :: u8 (v / 256) :: u8 v :: rest := by
+  simp [put16At, putBe16]
+
+theorem emitTcp_shape (net : Net) (f : TcpF) (payload : Bytes) :
+    ∃ x0 x1 x2 x3 x4 x5 x6 x7 x8 x9 x10 x11 x13 x14 x15 e0 e1 u0 u1, emitTcp net f payload =
+      x0 :: x1 :: x2 :: x3 :: x4 :: x5 :: x6 :: x7 :: x8 :: x9 :: x10 :: x11 ::
+      u8 ((((20 + f.opts.length) / 4) * 4096 + f.flags) / 256) :: x13 :: x14 :: x15 :: e0 :: e1 :: u0 :: u1 :: (f.opts ++ payload) := by
+  unfold emitTcp emitAt
+  simp only [tcpHdr, putBe16, putBe32, List.cons_append, List.nil_append, put16At_shape16]
+  exact ⟨_, _, _, _, _, _, _, _, _, _, _, _, _, _, _, _, _, _, _, rfl⟩
+
+/-- the TCP decoder accepts the emitted segment iff its options walk accepts the options that were written -/
+theorem tcpDelim_emitted (net : Net) (f : TcpF) (payload : Bytes) (ho4 : f.opts.length % 4 = 0) (ho : f.opts.length ≤ 40)
+    (hf : f.flags < 512) :
+    tcpDelim (emitTcp net f payload) = tcpOptsCheck 64 f.opts := by
+  obtain ⟨x0, x1, x2, x3, x4, x5, x6, x7, x8, x9, x10, x11, x13, x14, x15, e0, e1, u0, u1, hs⟩ := emitTcp_shape net f payload
+  rw [hs]
+  have hb : (u8 ((((20 + f.opts.length) / 4) * 4096 + f.flags) / 256)).toNat / 16 = (20 + f.opts.length) / 4 := by
+    rw [u8_toNat]; omega
+  have hd4 : (20 + f.opts.length) / 4 * 4 = 20 + f.opts.length := by omega
+  simp only [tcpDelim, List.length_cons, List.length_append, List.drop_succ_cons, List.drop_zero, hb, hd4]
+  rw [if_neg (by omega), if_neg (by omega), if_neg (by omega)]
+  congr 1
+  have : 20 + f.opts.length = f.opts.length + 20 := by omega
+  rw [this]
+  simp [List.take_succ_cons]
+
 end Gp.CksumEmit
